@@ -331,7 +331,9 @@ class GeckoAsyncFacade(Observable):
             + self.sensors  # type: ignore
             + self.binary_sensors  # type: ignore
             + [self.water_heater, self.water_care, self.reminders_manager]  # type: ignore
-            + [self.keypad, self.eco_mode]  # type: ignore
+            + [self.keypad]  # type: ignore
+            # Not every pack has an economy mode
+            + ([self.eco_mode] if self.eco_mode is not None else [])  # type: ignore
         )
 
     def get_device(self, key) -> Optional[GeckoAutomationBase]:
